@@ -468,6 +468,24 @@ func NestedScenarios() []Scenario {
 			return append(cs, reads(e)...)
 		})
 	}
+	// many documents with tied sort keys: sorted reads and sorted one-document writes pick by insertion order
+	add("ties", func(e *Env) []Call {
+		var docs []bson.D
+		for i := 1; i <= 17; i++ {
+			docs = append(docs, d("_id", int32(i), "g", int32(i%2), "h", int32(i%3), "v", int32(100-i)))
+		}
+		return []Call{e.InsertMany(sns, docs, true),
+			e.Find(sns, d(), d("g", int32(1)), nil, 0, 0),
+			e.Find(sns, d("h", d("$lte", int32(1))), d("g", int32(-1), "h", int32(1)), nil, 2, 5),
+			e.Find(sns, d(), d("h", int32(1)), d("v", int32(1)), 0, 0),
+			e.FindOneAndUpdate(sns, d(), d("$set", d("seen", int32(1))), d("g", int32(1)), nil, false, true, nil),
+			e.FindOneAndUpdate(sns, d("g", int32(1)), d("$inc", d("v", int32(1))), d("h", int32(-1)), nil, false, false, nil),
+			e.FindOneAndReplace(sns, d(), d("g", int32(0), "h", int32(0), "v", int32(0)), d("h", int32(1)), nil, false, true),
+			e.FindOneAndDelete(sns, d(), d("g", int32(-1)), nil),
+			e.FindOneAndDelete(sns, d("h", int32(2)), d("g", int32(1)), nil),
+			e.Find(sns, d(), d("g", int32(1), "h", int32(1)), nil, 0, 0),
+			e.Find(sns, d(), nil, nil, 0, 0)}
+	})
 	// the same array value stored into several documents by one call, then changed in one of them
 	add("shared-value", func(e *Env) []Call {
 		sh := bson.A{d("v", int32(1)), d("v", int32(2), "w", bson.A{int32(1)})}
